@@ -2,6 +2,7 @@
 // model runs on.  One case per line, first token = engine; one output line per
 // case.  Every case runs under catch_unwind; a panic is the outcome `PANIC`.
 mod codec;
+mod crash;
 mod eff;
 mod eng;
 mod pm;
@@ -17,6 +18,7 @@ fn run_case(toks: &[&str]) -> String {
         Some("effnew") => eff::run_effnew(toks),
         Some("rm") => rm::run_rm(toks),
         Some("pm") => pm::run_pm(toks),
+        Some("savecrash") => crash::run_savecrash(toks),
         Some("csv") | Some("esc") | Some("rmc") | Some("csvf") | Some("ini") | Some("mdl") | Some("totext") => txt::run_txt(toks),
         Some("eng") => eng::run_eng(toks, false),
         Some("engc") => eng::run_eng(toks, true),
@@ -28,6 +30,9 @@ fn run_case(toks: &[&str]) -> String {
 fn main() {
     std::panic::set_hook(Box::new(|_| {}));
     let args: Vec<String> = std::env::args().collect();
+    if args.len() >= 2 && args[1] == "savechild" {
+        std::process::exit(crash::run_child(&args[2..]));
+    }
     if args.len() != 3 || args[1] != "run" {
         eprintln!("usage: cvh run <cases>");
         std::process::exit(2);
